@@ -216,6 +216,10 @@ def resolve_locals(eng, store, t, depth=5):
             inner = resolve_locals(eng, store, x[1][1], depth - 1)
             if inner != x[1][1]:
                 return ("ptr", ("D", inner), x[2])
+        if x[0] == "obj" and x[1][0] == "D":
+            inner = resolve_locals(eng, store, x[1][1], depth - 1)
+            if inner != x[1][1]:
+                return ("obj", ("D", inner))
         return None
     return rewrite(t, f)
 
